@@ -392,6 +392,36 @@ func checkC15(w *World, r *Report) {
 
 	checkGenValidEnd(w, r, tm)
 	checkGenParams(w, r, tm, initTree, exportTree)
+	// a failure while importing or exporting fails the operation: an import that swallows an error (or returns early
+	// with nil) leaves part of the state out, and the node starts on it
+	r.Rule("GEN-ERRPROP", "failures of genesis import/export are reported", 10)
+	{
+		var fns []*ssa.Function
+		seenFn := map[*ssa.Function]bool{}
+		for _, tr := range []map[*ssa.Function]bool{initTree, exportTree} {
+			for _, fn := range sortedFns(tr) {
+				if p := pkgOf(fn); p == nil || !w.isRepoPkg(p) || p.Path() == simPath || w.isGenerated(fn) || seenFn[fn] {
+					continue
+				}
+				seenFn[fn] = true
+				fns = append(fns, fn)
+			}
+		}
+		fs := &failSummary{w: w, tm: tm, memo: map[*ssa.Function]bool{}}
+		for _, fn := range fns {
+			for _, b := range fn.Blocks {
+				for _, in := range b.Instrs {
+					c, ok := in.(ssa.CallInstruction)
+					if !ok || optionalRespelling(c) {
+						// (a parse whose only use is to respell the very string it parsed: when it fails the string is
+						// kept as it is — not a failure of the import)
+						continue
+					}
+					errPropSite(w, r, tm, fs, fn, c, "GEN-ERRPROP")
+				}
+			}
+		}
+	}
 	checkGenValidPos(w, r, tm)
 	// ids drawn after an import are fresh, and every imported bid is numbered by its auction's counter
 	r.SubWhere(checkC19, keepPrefix("genesis:"), "ID-MONO")
@@ -795,4 +825,41 @@ func setIDDominates(w *World, fn *ssa.Function, set ssa.CallInstruction, comp in
 	}
 	_ = token.ADD
 	return false
+}
+
+// optionalRespelling: c is AccAddressFromBech32(x.F) and the parsed address is used only to store its canonical
+// rendering back into x.F.
+func optionalRespelling(c ssa.CallInstruction) bool {
+	call, ok := c.(*ssa.Call)
+	if !ok || callKey(&call.Call) != sdkPath+".AccAddressFromBech32" || call.Referrers() == nil {
+		return false
+	}
+	used := false
+	for _, u := range *call.Referrers() {
+		ex, isEx := u.(*ssa.Extract)
+		if !isEx {
+			return false
+		}
+		if ex.Index != 0 || ex.Referrers() == nil {
+			continue
+		}
+		for _, u2 := range *ex.Referrers() {
+			sc, isCall := u2.(*ssa.Call)
+			if !isCall || callKey(&sc.Call) != sdkPath+".AccAddress.String" || sc.Referrers() == nil {
+				return false
+			}
+			for _, u3 := range *sc.Referrers() {
+				st, isSt := u3.(*ssa.Store)
+				if !isSt {
+					return false
+				}
+				fa, isFA := st.Addr.(*ssa.FieldAddr)
+				if !isFA || !isCanonicalRespelling(st, fa) {
+					return false
+				}
+				used = true
+			}
+		}
+	}
+	return used
 }
